@@ -292,6 +292,16 @@ func (w WALBatch) replay(fs *fileStore) error {
 			if err != nil && !errors.Is(err, errKeyAlreadyExists) {
 				return err
 			}
+			if bt.rootOffset != row.pageID {
+				// re-applying the insert split the table's root. the catalog
+				// update is logged as a separate record, which a crash in the
+				// middle of the statement may have cut off: bring the catalog
+				// in step here (the record, if present, re-applies the same value).
+				rs := &RelationService{fs: fs}
+				if err := rs.moveTableRoot(row.pageID, bt.rootOffset, row.LSN); err != nil {
+					return err
+				}
+			}
 		case OpUpdate:
 			err = node.updateCell(row.cellID, row.val)
 			if err != nil {
